@@ -226,6 +226,163 @@ def validate(ctx, groups, what):
     return total
 
 
+# ---------------------------------------------------------------------------------------------
+# real libraries produced by interrogate from headers that include each other
+def build_sets(ctx, work, names):
+    """Returns {set name: [(lib, path of lib.in)]}; every library is produced by the built interrogate."""
+    S = _idbm.library_sets()
+    jobs = []
+    for sn in names:
+        sd = os.path.join(work, "set-" + sn)
+        libs = S[sn]
+        for ent in libs:
+            lib, hn, text = ent[0], ent[1], ent[2]
+            own = ent[3] if len(ent) > 3 else {}
+            d = os.path.join(sd, lib)
+            os.makedirs(d)
+            open(os.path.join(d, "vdefs.h"), "w").write(_idbm.VDEFS)
+            open(os.path.join(d, hn + ".h"), "w").write(text)
+            for k, v in own.items():
+                open(os.path.join(d, k + ".h"), "w").write(v)
+        for ent in libs:
+            lib, hn = ent[0], ent[1]
+            own = ent[3] if len(ent) > 3 else {}
+            inc = [os.path.join(sd, e[0]) for e in libs if e[0] != lib]
+            jobs.append((sn, lib, os.path.join(sd, lib), hn, inc, sorted(own)))
+
+    def one(j):
+        sn, lib, d, hn, inc, own = j
+        r, args = _idbm.interrogate(d, hn, lib, lib, backend="-python-native", opts=("-fnames",), incdirs=inc, extra_headers=own)
+        return j, r, args
+    out = {}
+    for (sn, lib, d, hn, inc, own), r, args in run.pmap(one, jobs):
+        if r.rc != 0 or not r.outputs.get(lib + ".in"):
+            raise MachineryError("interrogate rejected generated library %s/%s: rc=%s %s" % (sn, lib, r.rc, r.stderr[-800:]))
+        out.setdefault(sn, []).append((lib, os.path.join(d, lib + ".in")))
+    return {sn: [(e[0], dict(out[sn])[e[0]]) for e in S[sn]] for sn in names}
+
+
+def normalise(proj, multi):
+    """Projection modulo the attribution the rule leaves open: for a type name that several libraries
+    offer as winning candidate, the owning library (and the library part of its member keys) is blanked."""
+    def strip(k):
+        return k.split("|", 1)[1] if "|" in k else k
+    P = json.loads(proj)
+    for t in P["T"]:
+        if t["tn"] in multi:
+            t["lib"] = "*"
+            for f in ("ctors", "methods", "elems", "mseqs", "casts"):
+                t[f] = [strip(x) for x in t[f]]
+            t["dtor"] = strip(t["dtor"])
+            t["derivs"] = [[d[0], strip(d[1]), strip(d[2])] for d in t["derivs"]]
+    for k in ("T",):
+        P[k] = sorted(P[k], key=lambda x: json.dumps(x, sort_keys=True))
+    return json.dumps(P, sort_keys=True)
+
+
+def realworld(ctx, work):
+    names = ["chain", "nsenum", "pair", "conflict"] + (["diamond"] if ctx.tier == "thorough" else [])
+    sets = build_sets(ctx, work, names)
+    # 1. every library alone
+    lines = []
+    for sn, libs in sets.items():
+        for lib, path in libs:
+            lines += ["case %s/%s" % (sn, lib), "reqdb " + path, "raw", "proj", "end"]
+    got, _ = _idbm.run_script(lines, work, "singles")
+    single, sproj = {}, {}
+    for sn, libs in sets.items():
+        for lib, path in libs:
+            st = got.get("%s/%s" % (sn, lib), [])
+            raws = [x for x in st if x.get("op") == "raw"]
+            if not raws or st[-1].get("exit") != 0 or raws[0]["err"]:
+                ctx.violation("loading the database of generated library %s/%s alone failed" % (sn, lib), dict(steps=st[-3:]))
+                return 0
+            single[(sn, lib)] = _idbm.raw_to_model(raws[0])
+            sproj[(sn, lib)] = json.loads([x for x in st if x.get("op") == "proj"][0]["P"])
+    # 2. every permutation, two query patterns
+    lines, cases = [], {}
+    for sn, libs in sets.items():
+        tn_all = {}
+        for lib, _ in libs:
+            for t in sproj[(sn, lib)]["T"]:
+                tn_all.setdefault(t["tn"], []).append(t)
+        probe = sorted(tn_all)[:: max(1, len(tn_all) // 6)][:6]
+        for pi, perm in enumerate(itertools.permutations(libs)):
+            for pat in ((0, 1) if ctx.tier == "thorough" else (pi % 2,)):
+                cid = "%s/p%d.%d" % (sn, pi, pat)
+                l = ["case " + cid]
+                for k, (lib, path) in enumerate(perm):
+                    l.append("reqdb " + path)
+                    if pat == 1 or k == len(perm) - 1:
+                        l += ["lookup ttn %s" % x for x in probe] + ["lookup tn %s" % probe[0], "proj"]
+                l += ["raw", "end"]
+                lines += l
+                cases[cid] = (sn, [lib for lib, _ in perm], l)
+    trace = os.path.join(work, "real.trace")
+    got, _ = _idbm.run_script(lines, work, "perms", trace=trace)
+    files_of_case, dumps, finals = {}, {}, {}
+    n = 0
+    for cid, (sn, order, script) in cases.items():
+        st = got.get(cid, [])
+        raws = [x for x in st if x.get("op") == "raw"]
+        if not st or st[-1].get("exit") != 0 or not raws or raws[0]["err"]:
+            ctx.violation("set %s loaded in order %s: the process failed or the error flag is set" % (sn, order),
+                          dict(script=script, tail=[{k: v for k, v in x.items() if k != "P"} for x in st[-3:]]))
+            continue
+        n += 1
+        files_of_case[cid] = {lib: _idbm.model_files(single[(sn, lib)]) for lib in order}
+        dumps[cid] = _idbm.raw_to_model(raws[0])
+        finals.setdefault(sn, []).append((order, [x for x in st if x.get("op") == "proj"][-1]["P"], script))
+    # 3. order independence, modulo the attribution the rule leaves open (an input predicate: the name is
+    #    offered by several libraries in the winning class)
+    for sn, fl in finals.items():
+        cands = {}
+        for lib, _ in sets[sn]:
+            for t in sproj[(sn, lib)]["T"]:
+                cands.setdefault(t["tn"], []).append(t)
+        multi = set()
+        for tn, c in cands.items():
+            fd = [t for t in c if t["fd"]]
+            g = [t for t in fd if t["gl"]]
+            win = c if not fd else (g if g else fd)
+            if len(win) > 1:
+                multi.add(tn)
+        ref = normalise(fl[0][1], multi)
+        for order, proj, script in fl[1:]:
+            if normalise(proj, multi) != ref:
+                ctx.violation("generated libraries %s: load order %s and load order %s give different databases: %s" % (
+                    sn, fl[0][0], order, diff_proj(ref, normalise(proj, multi))),
+                    dict(set=sn, order_a=fl[0][0], order_b=order, script=script))
+        ctx.notes.setdefault("real_sets", {})[sn] = dict(libraries=len(sets[sn]), orders=len(fl), types_with_open_attribution=len(multi))
+    # 4. the hook trace of these runs, with the files and the final raw dump, against IdbTrace
+    if not os.path.exists(trace) or os.path.getsize(trace) == 0:
+        raise MachineryError("the H-idb hooks recorded nothing: is patches/c13-hooks.diff applied to the tree under test?")
+    ids = sorted(files_of_case)
+    groups = []
+    nev = 0
+    ng = min(NCPU, len(ids))
+    # split the one trace file by Case marker so that the groups validate in parallel
+    chunks, cur = {}, None
+    for line in open(trace):
+        if line.startswith('{"e":"Case"'):
+            cur = json.loads(line)["id"]
+            chunks[cur] = []
+        if cur is not None:
+            chunks[cur].append(line)
+    for gi in range(ng):
+        part = ids[gi::ng]
+        tf = os.path.join(work, "real-%02d.trace" % gi)
+        with open(tf, "w") as f:
+            for cid in part:
+                f.write("".join(chunks.get(cid, [])))
+        cat = os.path.join(work, "realtrace-%02d.ndjson" % gi)
+        nev += assemble([tf], files_of_case, cat, dumps=dumps)
+        groups.append(cat)
+    validate(ctx, groups, "generated libraries")
+    ctx.notes["real_trace_events_validated"] = nev
+    return n
+
+
 def lines_of(lines, cid):
     out, on = [], False
     for l in lines:
@@ -293,3 +450,9 @@ def run_check(ctx):
         groups.append(cat)
     validate(ctx, groups, "replayed model behaviours")
     ctx.notes["trace_events_validated"] = nev
+
+    # ---- real libraries -------------------------------------------------------------------------
+    nr = realworld(ctx, work)
+    ctx.cov["evaluations"] += nr
+    ctx.cov["traces_validated_against_impl"] += nr
+    ctx.notes["real_library_loads"] = nr
